@@ -15,6 +15,16 @@ package lang2
 //
 // Direct oracle (driver, on the Go observations alone): no uuid twice in the walk; every created tag is
 // found exactly once in (walked tags + destroyed tags).
+//
+// Probes (`probe-*` forms, about a third of the programs, at most one per program): a resource held in a
+// *non-optional* local, array element or field is moved by one move form (declaration, argument +
+// return, `<-!` into an optional variable / dictionary entry, field, append, swap, second-value, remove,
+// save, destroy) — the path through `(*CompositeValue).Transfer` itself, which `SomeValue.Transfer`
+// shadows for optional variables — and then its *old location* is used once more.  The checker forbids
+// naming a moved variable, so the old location is reached through a reference taken before the move and
+// laundered through an identity function.  The use must fail (InvalidatedResourceReferenceError) and the
+// run ends there; if it succeeds the program logs "=stale" and carries on to the census.  Direct oracle:
+// a "=stale" line in the log is the violation `moved-resource-still-usable`.
 
 import (
 	"fmt"
@@ -44,6 +54,7 @@ const ResPrelude = `access(all) resource R {
 }
 access(all) fun mk(_ tag: Int): @R { log("C"); log(tag); return <- create R(tag) }
 access(all) fun pass(_ r: @R?): @R? { return <- r }
+access(all) fun passR(_ r: @R): @R { return <- r }
 access(all) fun idr(_ r: &R): &R { return r }
 access(all) fun idro(_ r: &R?): &R? { return r }
 access(all) fun walk(_ r: &R) {
@@ -371,6 +382,175 @@ func (g *rg) step() {
 	}
 }
 
+// dispose consumes a non-optional local `name: @R` holding n.
+func (g *rg) dispose(name string, n *node) {
+	if j := g.pickVar(false); j >= 0 && g.r.Bool() {
+		g.put(j, name, n)
+		return
+	}
+	g.form("destroy")
+	g.w("destroy %s", name)
+}
+
+// staleUse uses the reference `pr` to the old location of a moved resource.
+func (g *rg) staleUse(pr string) {
+	g.w("let %sq = %s.tag", pr, pr)
+	g.w(`log("=stale")`)
+	g.w("log(%sq)", pr)
+	g.fail = true
+}
+
+// probe: one move of a resource out of a non-optional location followed by a use of the old location
+// through a laundered reference taken before the move (see the file comment).
+func (g *rg) probe() {
+	pr := g.tmp() + "r"
+	fresh := func() *node { return &node{tag: g.tag(), m: map[string]*node{}} }
+	kind := g.r.Intn(12)
+	// probes on an element of the local array / on a field of a variable's resource
+	if kind == 8 && len(g.arr) > 0 {
+		k := g.r.Intn(len(g.arr))
+		n := g.arr[k]
+		u := g.tmp()
+		g.w("let %s = idr(&arr[%d] as &R)", pr, k)
+		switch g.r.Intn(3) {
+		case 0:
+			g.form("probe-array-remove")
+			g.arr = append(append([]*node{}, g.arr[:k]...), g.arr[k+1:]...)
+			g.w("let %s <- arr.remove(at: %d)", u, k)
+		case 1:
+			g.form("probe-array-second-value")
+			f := fresh()
+			g.arr[k] = f
+			g.w("let %s <- arr[%d] <- mk(%d)", u, k, f.tag)
+		default:
+			g.form("probe-array-swap")
+			f := fresh()
+			g.arr[k] = f
+			g.w("var %s <- mk(%d)", u, f.tag)
+			g.w("arr[%d] <-> %s", k, u)
+		}
+		g.staleUse(pr)
+		g.dispose(u, n)
+		return
+	}
+	if kind == 9 {
+		if i := g.pickVar(true); i >= 0 && g.vars[i].inner != nil {
+			g.form("probe-field-take")
+			host := g.vars[i]
+			n := host.inner
+			host.inner = nil
+			u := g.tmp()
+			g.w("let %s = idr((&v%d as &R?)!.inner!)", pr, i)
+			g.w("let %s <- (&v%d as &R?)!.takeInner()!", u, i)
+			g.staleUse(pr)
+			g.dispose(u, n)
+			return
+		}
+	}
+	// probes on a non-optional local variable `t`
+	var t string
+	var n *node
+	if i := g.pickVar(true); i >= 0 && g.r.Bool() {
+		t, n = g.take(i)
+	} else {
+		n = fresh()
+		t = g.tmp()
+		g.w("let %s <- mk(%d)", t, n.tag)
+	}
+	ref := func(v string) { g.w("let %s = idr(&%s as &R)", pr, v) }
+	u := g.tmp()
+	switch kind {
+	case 1:
+		g.form("probe-arg-return")
+		ref(t)
+		g.w("let %s <- passR(<- %s)", u, t)
+		g.staleUse(pr)
+		g.dispose(u, n)
+	case 2:
+		if j := g.pickVar(false); j >= 0 {
+			g.form("probe-force-assign-var")
+			ref(t)
+			g.vars[j] = n
+			g.w("v%d <-! %s", j, t)
+			g.staleUse(pr)
+			return
+		}
+		fallthrough
+	case 3:
+		if i := g.pickVar(true); i >= 0 && g.vars[i].inner == nil {
+			g.form("probe-field")
+			ref(t)
+			g.vars[i].inner = n
+			g.w("(&v%d as &R?)!.setInner(<- %s)", i, t)
+			g.staleUse(pr)
+			return
+		}
+		fallthrough
+	case 4:
+		g.form("probe-array-append")
+		ref(t)
+		g.arr = append(g.arr, n)
+		g.w("arr.append(<- %s)", t)
+		g.staleUse(pr)
+	case 5:
+		key := g.r.Pick([]string{"a", "b", "c"})
+		old := g.dd[key]
+		g.dd[key] = n
+		ref(t)
+		if old == nil && g.r.Bool() {
+			g.form("probe-dict-force-assign")
+			g.w(`dd["%s"] <-! %s`, key, t)
+			g.staleUse(pr)
+		} else {
+			g.form("probe-dict-insert")
+			g.w(`let %sx <- dd.insert(key: "%s", <- %s)`, u, key, t)
+			g.staleUse(pr)
+			g.disposeOpt(u+"x", old)
+		}
+	case 6:
+		g.form("probe-swap-nonopt")
+		f := fresh()
+		g.w("var %sb <- %s", t, t)
+		ref(t + "b")
+		g.w("var %s <- mk(%d)", u, f.tag)
+		g.w("%sb <-> %s", t, u)
+		g.staleUse(pr)
+		g.dispose(u, n)
+		g.dispose(t+"b", f)
+	case 7:
+		g.form("probe-second-value-nonopt")
+		f := fresh()
+		g.w("var %sb <- %s", t, t)
+		ref(t + "b")
+		g.w("let %s <- %sb <- mk(%d)", u, t, f.tag)
+		g.staleUse(pr)
+		g.dispose(u, n)
+		g.dispose(t+"b", f)
+	case 10:
+		p := fmt.Sprintf("s%d", g.r.Intn(4))
+		if g.stored[p] == nil {
+			g.form("probe-save")
+			ref(t)
+			g.stored[p] = n
+			g.w("acct.storage.save(<- %s, to: /storage/%s)", t, p)
+			g.staleUse(pr)
+			return
+		}
+		fallthrough
+	case 11:
+		g.form("probe-destroy")
+		ref(t)
+		g.w("destroy %s", t)
+		g.staleUse(pr)
+	default:
+		g.form("probe-decl")
+		ref(t)
+		g.w("let %s <- %s", u, t)
+		g.staleUse(pr)
+		g.dispose(u, n)
+	}
+}
+
 // disposeOpt consumes a local `name: @R?` holding `old` (possibly nil): destroys it or, when possible,
 // moves it into a free variable through optional binding.
 func (g *rg) disposeOpt(name string, old *node) {
@@ -446,7 +626,14 @@ func GenerateRes(r *hx.Rng) *ResProg {
 	g := &rg{r: r, vars: make([]*node, 4), dd: map[string]*node{}, stored: map[string]*node{}, forms: map[string]bool{}}
 	g.begin()
 	n := r.Intn(40) + 8
+	probeAt := -1
+	if r.Chance(35) {
+		probeAt = r.Intn(n)
+	}
 	for i := 0; i < n; i++ {
+		if i == probeAt {
+			g.probe()
+		}
 		g.step()
 	}
 	g.finish()
